@@ -61,7 +61,9 @@ impl Ref {
         }
         let out = if let Some(i) = fired {
           let m = &l.mappings[i];
-          if key_producing(m) && self.abs_trigger != Some(*k) { self.flush_absorbed(l); }
+          // absorbed modifiers apply to one keystroke: another keystroke that produces a key, or
+          // that absorbs modifiers of its own, flushes them (unless it is the same trigger again)
+          if (key_producing(m) || !m.absorbing.is_empty()) && self.abs_trigger != Some(*k) { self.flush_absorbed(l); }
           for a in &m.absorbing { if !self.absorbed.contains(a) { self.absorbed.push(*a); } }
           if !m.absorbing.is_empty() { self.abs_trigger = Some(*k); }
           self.in_effect.push(i);
